@@ -199,7 +199,43 @@ def read_idioms():
     uses = any(isinstance(n, ast.Name) and n.id == "iindex" for n in ast.walk(loops[0]))
     if not uses or not anywhere:
         raise ExtractionError("add_facility no longer derives interface ids from iindex")
-    return {"svcRollbackAll": catch_all, "facIndexReset": inside,
+    # (3) do the composites remove the partial construct?  try: ... except Exception: remove_network_node...; raise
+    comp_rb = []
+    for fname in ("add_facility", "add_switch"):
+        fn = find_func(find_class(tree2, "Topology"), fname)
+        tr = [n for n in fn.body if isinstance(n, ast.Try)]
+        if not tr:
+            comp_rb.append(False)
+            continue
+        hs = tr[0].handlers
+        ok = (len(tr) == 1 and len(hs) == 1 and (hs[0].type is None or (isinstance(hs[0].type, ast.Name) and hs[0].type.id == "Exception"))
+              and isinstance(hs[0].body[-1], ast.Raise) and hs[0].body[-1].exc is None
+              and "remove_network_node_with_components_nss_cps_and_links" in
+              [n.func.attr for n in ast.walk(hs[0]) if isinstance(n, ast.Call) and isinstance(n.func, ast.Attribute)]
+              and isinstance(fn.body[fn.body.index(tr[0]) - 1], ast.Assign))
+        if not ok:
+            raise ExtractionError("%s: unrecognised try/except shape" % fname)
+        comp_rb.append(True)
+    if comp_rb[0] != comp_rb[1]:
+        raise ExtractionError("add_facility and add_switch differ in their rollback")
+    # (4) validate-before-create in the two attach functions of the graph layer
+    tree3, src3 = parse("fim/graph/abc_property_graph.py")
+    pg = find_class(tree3, "ABCPropertyGraph")
+
+    def call_order(fn):
+        cs = [n for n in ast.walk(fn) if isinstance(n, ast.Call) and isinstance(n.func, ast.Attribute)
+              and isinstance(n.func.value, ast.Name) and n.func.value.id == "self"]
+        return [n.func.attr for n in sorted(cs, key=lambda n: (n.lineno, n.col_offset))]
+    lk = call_order(find_func(pg, "add_network_link_sliver"))
+    if "add_node" not in lk or "add_link" not in lk:
+        raise ExtractionError("add_network_link_sliver shape changed: %s" % lk)
+    link_pre = "node_exists" in lk and lk.index("node_exists") < lk.index("add_node")
+    ik = call_order(find_func(pg, "add_interface_sliver"))
+    if "add_node" not in ik or "add_link" not in ik:
+        raise ExtractionError("add_interface_sliver shape changed: %s" % ik)
+    if_pre = "get_node_properties" in ik and ik.index("get_node_properties") < ik.index("add_node")
+    return {"svcRollbackAll": catch_all, "facIndexReset": inside, "compositeRollback": comp_rb[0],
+            "linkPrecheck": link_pre, "ifaceParentPrecheck": if_pre,
             "spans": {"NetworkService.__init__": span_hash(src, init), "Topology.add_facility": span_hash(src2, fac)}}
 
 
@@ -287,6 +323,12 @@ def generate():
     body.append("def svcRollbackAll : Bool := %s\n" % ("true" if idioms["svcRollbackAll"] else "false"))
     body.append("/-- `add_facility` resets `iindex = 0` inside its interface loop -/")
     body.append("def facIndexReset : Bool := %s\n" % ("true" if idioms["facIndexReset"] else "false"))
+    body.append("/-- `add_facility` / `add_switch` remove the partial construct and re-raise when a later step raises -/")
+    body.append("def compositeRollback : Bool := %s\n" % ("true" if idioms["compositeRollback"] else "false"))
+    body.append("/-- `add_network_link_sliver` checks every endpoint is an existing ConnectionPoint before creating the Link -/")
+    body.append("def linkPrecheck : Bool := %s\n" % ("true" if idioms["linkPrecheck"] else "false"))
+    body.append("/-- `add_interface_sliver` checks the parent exists before creating the ConnectionPoint -/")
+    body.append("def ifaceParentPrecheck : Bool := %s\n" % ("true" if idioms["ifaceParentPrecheck"] else "false"))
     changed = emit("Rules", "\n".join(body))
     missing = {k: [m for m in en[k] if m not in rules["types"][k]] for k in order}
     return {"changed": changed, "rules": len(rules["kinds"]), "classes": rules["classes"],
